@@ -54,7 +54,7 @@ def damage_track(rng, tr, enc, order, style=None):
     log = []
     recs = list(tr.pos)
     style = style or rng.choice(['random', 'random', 'lost-record', 'double-fault', 'slips', 'zeros', 'truncate', 'none',
-                                 'recode', 'recode', 'recode'])
+                                 'recode', 'recode', 'recode', 'deleted-mark', 'deleted-mark'])
 
     def span(r, region):
         a, b = region_span(tr, r, region, enc)
@@ -108,8 +108,30 @@ def damage_track(rng, tr, enc, order, style=None):
         cells[a0:b0] = enc_cells
         log.append(('recode', r, region))
 
+    def set_mark(r, mark):
+        # rewrite the data address mark (legal mark clocks) without touching the CRC that covers it
+        a0, b0 = region_span(tr, r, 'dam', enc)
+        if enc == 'fm':
+            cells[a0:a0 + 16] = flux.FM_DDAM if mark == 0xF8 else flux.FM_DAM
+        else:
+            # three A1 sync words, then the mark byte
+            m0 = b0 - 16
+            prev = cells[m0 - 1]
+            enc_cells = flux.MFM_TAB[prev][mark]
+            cells[m0:b0] = enc_cells
+            if b0 + 1 < len(cells):
+                cells[b0] = 0 if (enc_cells[-1] or cells[b0 + 1]) else 1
+        log.append(('mark-%02X' % mark, r, 'dam'))
+
     if style == 'none':
         pass
+    elif style == 'deleted-mark':
+        # some records carry a deleted-data mark; their CRC (which covers the mark) is then wrong, and some of
+        # them have damaged data as well: none of these may be returned as a good sector
+        for r in rng.sample(recs, rng.randint(1, max(1, len(recs) // 2))):
+            set_mark(r, 0xF8)
+            if rng.random() < 0.6:
+                recode(r, 'data')
     elif style in ('recode', 'recode-all'):
         # every sector gets a recoded data (or ID) field: many chances for a weak CRC check to accept one
         for r in recs:
@@ -268,7 +290,7 @@ def decoder_case(spec, force_style=None):
             ids, datas = (flux.scan_fm if enc == 'fm' else flux.scan_mfm)(cells)
             home_pos = [adj(ops, tr.pos[sl]['idam']) for sl in secs]
             id_offs = [o for (o, a) in ids if tuple(a[:3]) == A]
-            d_ok = any(d == D and not deleted for (o, d, deleted) in datas)
+            d_ok = any(d == D for (o, d, deleted) in datas)
             stray = [o for o in id_offs if all(abs(o - hp) > 64 for hp in home_pos)]
             if stray and d_ok:
                 res.add('benign_collision_stray_id', 1)
@@ -361,7 +383,7 @@ def arbitrary_case(spec):
             res.events += 1
             res.add('sectors_yielded', 1)
             id_offs = [o for (o, a) in ids if tuple(a[:3]) == A]
-            d_offs = [o for (o, d, deleted) in datas if d == D and not deleted]
+            d_offs = [o for (o, d, deleted) in datas if d == D]
             if not id_offs or not d_offs or min(id_offs) > max(d_offs):
                 res.violation('yield-without-valid-crc:%s' % enc,
                               '%s decoder yielded %r (%d bytes) but the stream holds no CRC-valid %s for it'
